@@ -136,6 +136,13 @@ class VTKWriter:
 
     
     # private
+
+    def _output_point_index(self, nodes):
+        # position of mesh nodes in the list of points that are written
+        nodeToPoint = np.full(self.mesh.coords.shape[0], -1, dtype=np.int_)
+        nodeToPoint[np.asarray(self.outputNodes)] = np.arange(len(self.outputNodes))
+        return nodeToPoint[np.asarray(nodes)]
+
     
     VTKFieldRecord = namedtuple('VTKFieldRecord', ['data', 'fieldType', 'dataType'])
 
@@ -184,7 +191,7 @@ class VTKWriter:
     def _write_cell_connectivity(self, vtkFile):
         nelements = self.mesh.conns.shape[0]
         # strong assumption: there is only one element type
-        conns = self.mesh.conns[:,self.elConn]
+        conns = self._output_point_index(self.mesh.conns[:,self.elConn])
         nNodesPerElement = conns.shape[1]
         nNodesPerElementArray = np.tile(nNodesPerElement,
                                         (nelements,1))
@@ -198,6 +205,7 @@ class VTKWriter:
         
     def _write_contact_edges(self, vtkFile):
         for e in self.contactEdges:
+            e = self._output_point_index(e)
             vtkFile.write('2 {} {}\n'.format(e[0],e[1]))
 
 
